@@ -12,6 +12,6 @@ rsync -a --exclude .git /repo/ "$S/repo/"
 mkdir -p "$S/verif/bin"; cp /verif/known_findings.jsonl "$S/verif/" 2>/dev/null
 /verif/tools/mutbuild.sh "$S/repo" "$S/verif/bin/vcheck" ./cmd/vcheck || { echo "mutant does not build"; exit 8; }
 case "$PROP" in C05|C06|C07|C19) /verif/tools/mutbuild.sh "$S/repo" "$S/verif/bin/vcheck.race" ./cmd/vcheck -race || exit 8;; esac
-case "$PROP" in C01|C18|C19|C20) ( cd "$S/repo" && go build -tags verif -o "$S/verif/bin/sysl" ./cmd/sysl ) || exit 8;; esac
+case "$PROP" in C01|C09|C18|C19|C20) ( cd "$S/repo" && go build -tags verif -o "$S/verif/bin/sysl" ./cmd/sysl ) || exit 8;; esac
 VERIF_DIR="$S/verif" VERIF_REPO="$S/repo" "$S/verif/bin/vcheck" run "$PROP" --tier "$TIER" 2>&1 | grep -v "^  observed" | tail -${MUT_TAIL:-15}
 exit ${PIPESTATUS[0]}
